@@ -9,6 +9,7 @@
 //! With `--inputs FILE` (JSON lines) the generator is skipped: replay / corpus.
 mod c05;
 mod c15;
+mod c18;
 mod dump;
 mod gal;
 mod gen;
@@ -35,6 +36,7 @@ fn module(prop: &str) -> PropModule {
     match prop {
         "C15" => c15::module(),
         "C05" => c05::module(),
+        "C18" => c18::module(),
         "C01" => PropModule { coq_module: "Check_Norm", runner: "Check_Norm.run_C01", generate: |r, t| libgen::generate_mixed(r, t, 320), execute: lib_stage::execute, label: libgen::label },
         "C02" => PropModule { coq_module: "Check_Norm", runner: "Check_Norm.run_C02", generate: |r, t| libgen::generate_mixed(r, t, 320), execute: lib_stage::execute, label: libgen::label },
         "C06" => PropModule { coq_module: "Check_Norm", runner: "Check_Norm.run_C06", generate: |r, t| libgen::generate_mixed(r, t, 320), execute: lib_stage::execute, label: libgen::label },
